@@ -359,7 +359,15 @@ impl C12 {
                     }
                     (root.join(trees::rel_path(d, None)), Some(true))
                 }
-                Target::Outside => (base.join("elsewhere").join("thing.txt"), None),
+                // outside every root: somewhere else, or (odd probes) in a sibling of the first root whose name
+                // merely starts with the root's name
+                Target::Outside if pn % 2 == 0 => (base.join("elsewhere").join("thing.txt"), None),
+                Target::Outside => {
+                    let d = base.join("r0_elsewhere");
+                    let _ = std::fs::create_dir_all(&d);
+                    let _ = std::fs::write(d.join("thing.txt"), b"x");
+                    (d.join("thing.txt"), None)
+                }
                 Target::DottedStem(i) => {
                     let d = &dirs[*i as usize % dirs.len()];
                     let p = root.join(trees::rel_path(d, None)).join("archive.tar.gz");
@@ -748,7 +756,7 @@ impl Prop for C12 {
     }
 
     fn rule(&self) -> String {
-        "synthetic part: a generated tree really exists in a temp dir under 1..2 roots (single, nested, disjoint); probes = (entry: any file or directory incl. the root itself, a path outside every root, a dotted stem, a non UTF-8 name) x \
+        "synthetic part: a generated tree really exists in a temp dir under 1..2 roots (single, nested, disjoint); probes = (entry: any file or directory incl. the root itself, a path outside every root (elsewhere, or in a sibling directory whose name starts with the root's name), a dotted stem, a non UTF-8 name) x \
          (notification kind: create file/folder/any, modify data/metadata/any, rename from/to/both, remove file/folder, any, access, other) x (path spelling: plain, with '.', with 'sibling/..'); removals are handled with the object already gone. \
          Each probe is fed to the crate's real notify handler (hook) and the events it sends are compared with: per root containing the path, the entry whose path_of is that path (right id, extension, kind; for a vanished extension-less path without hint either kind) \
          plus, for create/rename/remove, its parent directory (the root being Directory(\"\")); nothing for access/other/outside/inexpressible paths, and a later event is still delivered. Round trip id_of_path(path_of(e)) == e for every entry, path_of injective. \
